@@ -260,7 +260,28 @@ def C15(tier, seed):
         "non-trivial = every episode; distinct by (call/return sequence, failure plan)",
         ["TLC/SANY, CommunityModules", "spec/UriMemory.tla (scaled-word design model) and Trace_Memory.tla (contract on recorded calls)", "content observations (prefix, zeroing, full-size usability, canaries) are made by the harness and ASan"])
 
-CHECKS = {"C15": C15, "C16": C16, "C17": C17, "C18": C18, "C01": C01, "C02": C02, "C03": C03, "C04": C04, "C05": C05, "C06": C06, "C08": C08, "C09": C09, "C11": C11}
+def C14(tier, seed):
+    res = _simple("C14", tier, seed, "MC_Ledger", "MC_Ledger.cfg", "MC_Ledger.cfg",
+        "the ledger automaton: any interleaving of requests, failures and releases; a history is clean iff every handed-out block is released exactly once",
+        "fault", "Trace_Fault",
+        "for every input shape of every operation (parse; resolve and create-reference against several bases and both option values; normalize borrowed and owned with single-bit / combined / all masks; make-owner; dissect; compose-malloc) the k-th request through the supplied manager fails, "
+        "for EVERY k from 1 to (requests of the fault-free run)+1, in fail-once and fail-from-k-on modes, both widths; one event per run carrying the allocator log of set-up, call and the caller's ordinary cleanup; TLC folds it through the ledger automaton and requires the out-of-memory code exactly when a request failed. "
+        "Released blocks are poisoned and really freed (ASan: touching one is a crash). non-trivial = the failure position lies inside the call's allocation sequence; distinct by (operation, inputs, k, mode)",
+        ["TLC/SANY, CommunityModules", "spec/UriLedger.tla", "recording/fault-injecting manager of the harness; ASan for use-after-free"], level="fault_enumeration")
+    res.coverage["exhaustive"] = True
+    res.coverage["exhaustive_note"] = "every failure position of every listed (operation, input) shape, both modes; the list of shapes is finite and fixed per tier"
+    return res
+
+def C13(tier, seed):
+    return _simple("C13", tier, seed, "MC_Ledger", "MC_Ledger.cfg", "MC_Ledger.cfg",
+        "the ledger automaton over all short histories: balanced exactly when every handed-out block is released once and nothing else is released",
+        "ledger", "Trace_Ledger",
+        "every function that takes a memory manager (parse, resolve, create-reference, normalize with 10 masks borrowed and owned, make-owner, dissect, compose-malloc, the matching release calls) on a corpus of URIs of every host kind x three manager kinds: "
+        "a recording manager (libc allocation from inside the call is itself an event via -Wl,--wrap: nothing may bypass the manager), the default manager (wrapped libc is the ledger), a manager completed by uriCompleteMemoryManager over a recording malloc/free backend; "
+        "freeing URI members twice more must release nothing; all 31 incomplete managers x the 9 manager-taking functions must be rejected with the dedicated code before anything is allocated. non-trivial = every case; distinct by (operation, inputs, mask, manager kind)",
+        ["TLC/SANY, CommunityModules", "spec/UriLedger.tla", "recording manager and libc interposition of the harness"])
+
+CHECKS = {"C13": C13, "C14": C14, "C15": C15, "C16": C16, "C17": C17, "C18": C18, "C01": C01, "C02": C02, "C03": C03, "C04": C04, "C05": C05, "C06": C06, "C08": C08, "C09": C09, "C11": C11}
 
 # ------------------------------------------------------------------ known findings triage, replay
 def triage(pid, violations, kf):
